@@ -238,6 +238,8 @@ def run_transform(case):
                                   exact_before == exact_after),
         "input_untouched": bool(same_input),
         # the matrix that was built reports the numbers of the case (whatever the storage type of each criterion)
-        "input_as_given": bool(case.get("nan")) or bool(
-            np.array_equal(before["matrix"], np.array(case["matrix"], dtype=float))),
+        "input_as_given": (bool(case.get("nan")) or bool(
+            np.array_equal(before["matrix"], np.array(case["matrix"], dtype=float)))) and
+        (not all(o in (1, -1) for o in case["objectives"]) or
+         [int(o) for o in before["objectives"]] == [int(o) for o in case["objectives"]]),
     }
